@@ -1,5 +1,6 @@
 import TracklibVerif.Lemmas.TextIOGpx
 import TracklibVerif.Lemmas.TextIOAll
+import TracklibVerif.Lemmas.TextIOGpxAF
 /-! # C13 — tracks and networks written to file are read back unchanged
 
 Theorems about the model `TV.TextIO` (`Model/TextIO.lean`), which mirrors
@@ -164,6 +165,20 @@ theorem time_roundtrip (f : List Tok) (h : Lossless f) (t : Stamp) (ht : Fits t)
     readTimestamp f (printTime f t) = some (project f t) := by
   rw [readTimestamp_printTime f h t ht, applyCodes_epoch f t h.1]
 
+/-- **reading under another format** `reread_roundtrip`: a text is read under a lossless read format `f2` as the stamp whose
+text under `f2` it is (`printTime f2 t2`), whatever format `f1` and stamp `t1` it was printed from — `03/04/2021` printed
+from 3 April under `2D/2M/4Y` is 4 March under `2M/2D/4Y`. The result depends on the text and on the read format in force
+only: this is what the `reread` stream and the twin-format sessions demand of the real code (state left by earlier reads
+must not matter). -/
+theorem reread_roundtrip (f1 f2 : List Tok) (h2 : Lossless f2) (t1 t2 : Stamp) (ht2 : Fits t2)
+    (htext : printTime f1 t1 = printTime f2 t2) : readTimestamp f2 (printTime f1 t1) = some (project f2 t2) := by
+  rw [htext]
+  exact time_roundtrip f2 h2 t2 ht2
+
+/-- 3 April 2021 under day/month is the text of 4 March 2021 under month/day -/
+example : printTime (tokenize "2D/2M/4Y 2h:2m:2s".toList) ⟨⟨2021, 4, 3, 10, 0, 0⟩, 0⟩
+    = printTime (tokenize "2M/2D/4Y 2h:2m:2s".toList) ⟨⟨2021, 3, 4, 10, 0, 0⟩, 0⟩ := by decide +kernel
+
 /-- with the six calendar codes present the calendar part is read back identically ("timestamps
 identical to the second") -/
 theorem time_roundtrip_full (f : List Tok) (h : Lossless f) (hfull : FullDate f) (t : Stamp) (ht : Fits t) :
@@ -187,6 +202,18 @@ theorem gpx_file_roundtrip (rf : List Tok) (hrf : ReadsIso rf) (geo : Bool) (nam
     (hname : '<' ∉ name ∧ '\n' ∉ name) (rows : List GRow) (hrows : ∀ r ∈ rows, Fits r.t) :
     readGpx rf geo (gpxBody name rows) = .ok [rows.map (expG rf geo)] :=
   TV.TextIO.gpx_file_roundtrip rf hrf geo name hname rows hrows
+
+/-- **GPX with extensions** `gpx_af_file_roundtrip`: the text `writeToGpx(track, path, af=True)` writes — every point followed
+by an `<extensions>` block with one line `<name>str(value)</name>` per analytical feature — is read by the `trk` scanner as the
+same single track with the same points in order (the reader does not read the feature values: `read_all` is ignored for GPX).
+Hypothesis on every extension line (`ExtOK`): it is one line and contains none of the six texts the scanner looks for
+(`<trk>`, `</trk>`, `<trkpt `, `</trkpt>`, `<ele>`, `<time>`) — true of ordinary names, false of a feature named `time` or
+`ele`, whose line the scanner takes for the timestamp / the elevation (counter-example below). -/
+theorem gpx_af_file_roundtrip (rf : List Tok) (hrf : ReadsIso rf) (geo : Bool) (name : Str)
+    (hname : '<' ∉ name ∧ '\n' ∉ name) (rows : List (GRow × List (Str × AFVal)))
+    (hrows : ∀ ra ∈ rows, Fits ra.1.t ∧ ∀ a ∈ ra.2, ExtOK a.1 a.2) :
+    readGpx rf geo (gpxBodyAF name rows) = .ok [rows.map (fun ra => expG rf geo ra.1)] :=
+  TV.TextIO.gpx_af_file_roundtrip rf hrf geo name hname rows hrows
 
 /-- the two read formats the callers use for GPX files read ISO stamps; with them the calendar part of the
 timestamp comes back unchanged -/
@@ -306,6 +333,16 @@ time format is split, and the timestamp written last reads back as `ObsTime()` (
 `csv-separator-in-timestamp`). -/
 example : (readCsv ⟨0, 1, -1, 2, ' '⟩ (tokenize "2D/2M/4Y 2h:2m:2s".toList) 0 "1.000 2.000 31/01/2020 23:59:59\n".toList).toOption
     = some [⟨(1000, 3), (2000, 3), (0, 0), epoch⟩] := by decide +kernel
+
+/-- ordinary feature names and values give extension lines the scanner steps over -/
+example : ExtOK "speed".toList (.dec 2 125) ∧ ExtOK "k&".toList (.int 12) ∧ ExtOK "mode".toList (.str "walk".toList) := by
+  refine ⟨⟨?_, by decide⟩, ⟨?_, by decide⟩, ⟨?_, by decide⟩⟩ <;> (constructor <;> decide)
+/-- counter-example documenting `ExtOK`: a feature named `time` makes the scanner read `<time>12</time>` as the timestamp
+of the point (ValueError on the empty month field) -/
+example : ¬ ExtOK "time".toList (.int 12) ∧
+    (readGpx isoFmt true (gpxBodyAF "0".toList [(⟨⟨false, 100000000⟩, ⟨false, 200000000⟩, ⟨false, 0⟩, ⟨⟨2020, 1, 2, 3, 4, 5⟩, 0⟩⟩,
+      [("time".toList, .int 12)])])).toOption = none := by
+  refine ⟨fun h => absurd h.1.time (by decide), by decide +kernel⟩
 
 /-- a network line and a WKT text -/
 example : netRow ',' 3 ⟨"e1".toList, "a".toList, "b".toList, -1, [(0, 0), (1500, -2250)]⟩
